@@ -164,7 +164,6 @@ def queue_monitor(task):
     for k in range(n):
         seed = seed0 * 100003 + k
         r = random.Random(seed)
-        q = EventQueue()
         pending = []          # model: list of event objects
         ops = []
         uid = 0
@@ -173,7 +172,7 @@ def queue_monitor(task):
             ops.append(op)
             evals += 1
 
-            def mk():
+            def mk0():
                 nonlocal uid
                 uid += 1
                 ts = r.randint(0, 12)
@@ -184,6 +183,23 @@ def queue_monitor(task):
                     return Event(ts)
                 ev = acnsim.EV(ts, ts + 3, 5.0, "st", f"s{uid}", acnsim.Battery(10, 0, 7))
                 return PluginEvent(ts, ev) if c == "P" else UnplugEvent(ts, ev)
+
+            def mk():
+                # now and then an event carries an explicitly chosen precedence (0 included): ties are broken by the precedence an event HAS, and a
+                # restored queue must keep it, whatever the class default is
+                e = mk0()
+                if r.random() < 0.2:
+                    e.precedence = r.choice([0, 5, 15, 25])
+                return e
+            if step == 0:
+                # half of the sequences start from a queue CONSTRUCTED from a list (several events per period, in arbitrary order)
+                if k % 2:
+                    es0 = [mk() for _ in range(r.randint(2, 8))]
+                    q = EventQueue(es0)
+                    pending.extend(es0)
+                    ops.append("init(list)")
+                else:
+                    q = EventQueue()
             if op == "add":
                 e = mk(); q.add_event(e); pending.append(e)
             elif op == "adds":
